@@ -63,12 +63,3 @@ func VH_C08_tlb_SnakeData(nbits, nrefs, cbits int) {
 	vDecodeTotal(nbits, nrefs, cbits, func(c *boc.Cell) error { var x SnakeData; return Unmarshal(c, &x) })
 }
 
-// hashing an arbitrary (possibly ill-formed) small tree returns a hash or an error, never panics
-func VH_C08_hash_total(nbits, nrefs, cbits int) {
-	c := vArbTree(nbits, nrefs, cbits)
-	rm := zzvrt.NondetByte("rootmask")
-	zzvrt.Assume(rm <= 7)
-	_, err := c.Hash()
-	zzvrt.Cover("hashed", err == nil)
-	zzvrt.ObserveBool("err", err != nil)
-}
